@@ -1,7 +1,7 @@
 (* C04 — Decoding is independent of read chunking and resynchronises on every frame.
    Statements only; every proof is [exact <lemma>]. *)
 From FMP Require Import Base.Bytes Model.Generated Model.Msgpack Model.Frame Model.Reader
-     Proofs.MsgpackProofs Proofs.ReaderProofs.
+     Proofs.MsgpackProofs Proofs.ReaderProofs Proofs.FrameProofs.
 Open Scope N_scope.
 
 (* the buffered reader with looping consumers delivers exactly the next n bytes of the stream, however the
@@ -33,6 +33,27 @@ Proof. exact chunking_irrelevant. Qed.
 Theorem C04_of_chunks : forall cs, abs (of_chunks cs) = concat cs /\ rd_wf (of_chunks cs).
 Proof. exact of_chunks_abs. Qed.
 
+(* exactly the declared length of each frame is consumed, WHATEVER its content (shorter or longer than its array header
+   implies, invalid header or type, unknown method): the residual stream is what follows the declared bytes ... *)
+Theorem C04_exact_consumption : forall e max L p content rest,
+    (0 < L <= max)%Z -> (max <= 2147483647)%Z -> In p (int_opts L) -> len content = Z.to_N L ->
+    snd (next_frame e max (p ++ content ++ rest)) = rest.
+Proof. exact exact_consumption. Qed.
+
+(* ... the outcome of a frame does not depend on what follows it ... *)
+Theorem C04_outcome_is_local : forall e max L p content rest rest',
+    (0 < L <= max)%Z -> (max <= 2147483647)%Z -> In p (int_opts L) -> len content = Z.to_N L ->
+    fst (next_frame e max (p ++ content ++ rest)) = fst (next_frame e max (p ++ content ++ rest')).
+Proof. exact outcome_is_local. Qed.
+
+(* ... so the following frame is always decoded from its first byte *)
+Theorem C04_resync_step : forall fuel e max L p content rest,
+    (0 < L <= max)%Z -> (max <= 2147483647)%Z -> In p (int_opts L) -> len content = Z.to_N L ->
+    run_frames (S fuel) e max (p ++ content ++ rest) =
+      (let o := fst (next_frame e max (p ++ content)) in
+       if continues o then o :: run_frames fuel e max rest else [o]).
+Proof. exact resync_step. Qed.
+
 (* non-vacuity: two cancel frames, read whole and one byte at a time *)
 Definition ex_env := mkEnv [] [] [].
 Definition ex_stream : bytes := [6; 0x93; 3; 5; 0xa2; 112; 113] ++ [5; 0x93; 3; 6; 0xa1; 122].
@@ -47,3 +68,6 @@ Print Assumptions C04_next_frame_chunked_refines_flat.
 Print Assumptions C04_run_chunked_refines_flat.
 Print Assumptions C04_chunking_irrelevant.
 Print Assumptions C04_of_chunks.
+Print Assumptions C04_exact_consumption.
+Print Assumptions C04_outcome_is_local.
+Print Assumptions C04_resync_step.
